@@ -31,7 +31,7 @@ func (c11) Assumptions() []string {
 		"struct shapes are limited to what reflect.StructOf can build (no methods, no generic types)",
 	}
 }
-func (c11) NumCases(tier string) int      { return tierN(tier, 1000, 20000) }
+func (c11) NumCases(tier string) int      { return tierN(tier, 1000, 150000) }
 func (c11) MinNontrivial(tier string) int { return tierN(tier, 300, 3000) }
 
 type leaf struct {
